@@ -189,7 +189,7 @@ def gen_cases(rng, tier):
     # header text
     for _ in range(25 * K):
         add('hdrtext', g.header_text(g.gen_header_lines(rng), rng.choice([b'\n', b'\n', b'\r\n'])), 'valid')
-    for _ in range(320 * K):
+    for _ in range(260 * K):
         ls = g.mutate_header_lines(rng, g.gen_header_lines(rng))
         t = g.header_text(ls, rng.choice([b'\n', b'\n', b'\n', b'\r\n']))
         if rng.random() < 0.1:
@@ -205,7 +205,7 @@ def gen_cases(rng, tier):
     for _ in range(30 * K):
         fs = g.gen_sam_fields(rng)
         add('samrec', b'\t'.join(fs), 'valid', h=rng.choice(['', hx(htext)]))
-    for _ in range(240 * K):
+    for _ in range(200 * K):
         fs = g.mutate_sam_fields(rng, g.gen_sam_fields(rng))
         add('samrec', b'\t'.join(fs), 'mutated', h=rng.choice(['', hx(htext)]))
     # SAM reader: header + lines, line terminators, empty lines, no final newline
@@ -237,7 +237,7 @@ def gen_cases(rng, tier):
             m, lab = g.mutate_fields(rng, fs)
             add('hdrbin', g.join(m), lab)
     # BAM streams: header + records
-    for tr in range(24 * K):
+    for tr in range(18 * K):
         refs = [(b'chr%d' % i, 2**29) for i in range(rng.randrange(0, 3))]
         text = b''.join(b'@SQ\tSN:%s\tLN:%d\n' % r for r in refs)
         if rng.random() < 0.5:
@@ -298,7 +298,7 @@ def gen_cases(rng, tier):
             add('bgzf', g.join(m), lab, rd=rng.choice([1, 1, 2]))
     # indexes
     for op, mk in (('bai', g.bai_fields), ('tbi', g.tbi_fields), ('csi', g.csi_fields)):
-        for _ in range(18 * K):
+        for _ in range(14 * K):
             fs = mk(rng)
             add(op, g.join(fs), 'valid')
             for _ in range(8):
@@ -325,7 +325,7 @@ def gen_cases(rng, tier):
         l = g.mutate_fai(rng, g.fai_text(rng)[:1])[0]
         add('fai', b'\t'.join(l) + b'\n', 'single')
     # CRAM
-    for _ in range(16 * K):
+    for _ in range(12 * K):
         fs = g.cram_fields(rng)
         add('cram', g.join(fs), 'valid')
         for _ in range(10):
